@@ -342,13 +342,16 @@ func serializeV1SCTSignatureInput(sct SignedCertificateTimestamp, entry LogEntry
 	if entry.Leaf.LeafType != TimestampedEntryLeafType {
 		return nil, fmt.Errorf("Unsupported leaf type %s", entry.Leaf.LeafType)
 	}
+	// RFC 6962 section 3.2: the signed structure carries the extensions of the
+	// SCT itself (as it does the SCT's version and timestamp), not a copy held
+	// by the log entry.
 	switch entry.Leaf.TimestampedEntry.EntryType {
 	case X509LogEntryType:
-		return serializeV1CertSCTSignatureInput(sct.Timestamp, entry.Leaf.TimestampedEntry.X509Entry, entry.Leaf.TimestampedEntry.Extensions)
+		return serializeV1CertSCTSignatureInput(sct.Timestamp, entry.Leaf.TimestampedEntry.X509Entry, sct.Extensions)
 	case PrecertLogEntryType:
 		return serializeV1PrecertSCTSignatureInput(sct.Timestamp, entry.Leaf.TimestampedEntry.PrecertEntry.IssuerKeyHash,
 			entry.Leaf.TimestampedEntry.PrecertEntry.TBSCertificate,
-			entry.Leaf.TimestampedEntry.Extensions)
+			sct.Extensions)
 	default:
 		return nil, fmt.Errorf("unknown TimestampedEntryLeafType %s", entry.Leaf.TimestampedEntry.EntryType)
 	}
